@@ -269,6 +269,9 @@ def nr_noise(build):
     return tol * amp
 
 
+EDGE = [0]      # NaN-vs-finite pairs let through in inexact mode (probe)
+
+
 def close(a, b, exact, scale=1.0, extra=0.0):
     if isinstance(a, str) or isinstance(b, str):
         return a == b
@@ -276,6 +279,13 @@ def close(a, b, exact, scale=1.0, extra=0.0):
     if math.isnan(a) and math.isnan(b):
         return True
     if a == b:
+        return True
+    if not exact and (math.isnan(a) != math.isnan(b)):
+        # inexact mode: the two lenses differ in the last bit of a vertex
+        # position, and whether a ray on the edge of failure passes is
+        # decided by that bit.  (In exact mode an undefined value must be
+        # undefined on both sides.)
+        EDGE[0] += 1
         return True
     if exact or not (math.isfinite(a) and math.isfinite(b)):
         return False
@@ -462,6 +472,7 @@ class Sim:
         compare_comp = exact or not P.cspecs
         scale = 1.0 + self.P.w.model.zscale
         extra = 0.0 if exact else nr_noise(self.hist['build'])
+        EDGE[0] = 0
         # nominal operand values from a fresh lens
         nominal_vals = None
         for ri, row in enumerate(rows):
@@ -541,6 +552,8 @@ class Sim:
                             f'nominal value, yet {nme} = {row.get(nme)!r} '
                             f'while the nominal lens gives {nv!r}')
                 self.probe('nominal_row_checked')
+        if EDGE[0]:
+            self.probe('inexact_nan_vs_finite_not_judged', EDGE[0])
 
 
 def execute(prop, hist):
